@@ -44,11 +44,11 @@ func GenConfig(rng *rand.Rand, p *Profile) *CaseConfig {
 	cfg := &CaseConfig{Committees: map[uint64][]interfaces.CommitteeMember{}, Byz: map[string]bool{}, Outsiders: map[string]bool{}, MaxH: p.MaxH}
 	ids := make([]string, n)
 	for i := range ids {
-		ids[i] = fmt.Sprintf("n%02d", i)
+		ids[i] = fmt.Sprintf("nd%02d", i) // four bytes, the first three shared by up to ten members
 	}
 	cfg.Universe = append(cfg.Universe, ids...)
 	for i := 0; i < 2; i++ {
-		o := fmt.Sprintf("x%02d", i)
+		o := fmt.Sprintf("ndx%d", i)
 		cfg.Universe = append(cfg.Universe, o)
 		cfg.Outsiders[o] = true
 	}
@@ -93,6 +93,19 @@ func GenConfig(rng *rand.Rand, p *Profile) *CaseConfig {
 			cm = append(cm, interfaces.CommitteeMember{Id: primitives.MemberId(ids[i]), Weight: primitives.MemberWeight(ws[i])})
 		}
 		cfg.Committees[h] = cm
+	}
+	// sometimes one member sits out the committee of the later heights (it runs an out-of-committee term there and moves on by node sync only)
+	if n >= 5 && rng.Intn(5) == 0 {
+		out := ids[rng.Intn(n)]
+		for h := uint64(2); h <= p.MaxH+1; h++ {
+			var cm []interfaces.CommitteeMember
+			for _, m := range cfg.Committees[h] {
+				if string(m.Id) != out {
+					cm = append(cm, m)
+				}
+			}
+			cfg.Committees[h] = cm
+		}
 	}
 	if p.HonestOnly {
 		return cfg
